@@ -584,7 +584,8 @@ func C17(r *report.Report, tier string) {
 		}
 		s := ExploreAll(r, "c17.conc", h, b, vrt.PDiskW|vrt.PDiskR|vrt.PUnlock, false)
 		if len(s.Outcomes) < 2 && !independent {
-			r.Violate(report.Violation{Sig: "vacuous-harness", Detail: fmt.Sprintf("%+v", h)})
+			r.Note("VACUOUS harness %+v: one outcome - nothing collided", h)
+			r.Exhaustive = false
 		}
 		r.Sample(map[string]interface{}{"concurrent_harness": h, "executions": s.Execs, "distinct_outcomes": len(s.Outcomes)})
 		s.Outcomes = map[string]int64{"(distinct outcomes)": int64(len(s.Outcomes))}
